@@ -70,6 +70,17 @@ func formatCase(ref registry.Reference) {
 	id := run.NewID()
 	run.Case(id, fmt.Sprintf("F %s %s %s", common.Hex(ref.Registry), common.Hex(ref.Repository), common.Hex(ref.Reference)), "FMT "+common.Hex(ref.String()))
 	run.Count("format")
+	// Reference.Validate on the same triple; a valid value must survive String()/ParseReference
+	vid := run.NewID()
+	valid := ref.Validate() == nil
+	run.Case(vid, fmt.Sprintf("W %s %s %s", common.Hex(ref.Registry), common.Hex(ref.Repository), common.Hex(ref.Reference)), fmt.Sprintf("VALID %v", valid))
+	if valid {
+		run.Count("validate_ok")
+		if back, err := registry.ParseReference(ref.String()); err != nil || back != ref {
+			run.OracleFail(vid, "validate-roundtrip", fmt.Sprintf("%#v passes Validate but String()=%q parses to %+v, %v", ref, ref.String(), back, err),
+				map[string]string{"op": "F", "registry": ref.Registry, "repository": ref.Repository, "reference": ref.Reference})
+		}
+	}
 	// oracle: '@' exactly for a valid (and linked) digest, ':' otherwise
 	if ref.Repository != "" && ref.Reference != "" {
 		sep := ":"
